@@ -389,6 +389,9 @@ def oracle_hits(ires):
         if "oracle=" in ln:
             r = parse_line(ln)
             hits.append((r["idx"], r["extra"]["oracle"], r["extra"]))
+            for k in sorted(r["extra"]):
+                if re.fullmatch(r"also\d", k):      # verdicts about other properties in the same call
+                    hits.append((r["idx"], r["extra"][k], r["extra"]))
         elif " fault #" in ln:
             # the harness's shadow state saw the LIBRARY read or write an allocation it had released, or a
             # value / table it had moved out (the fault line ends the history): C02, observed on the
